@@ -194,6 +194,14 @@ def equivariance(ck, RULE, I, name, r1, entry):
                 ck.ob(RULE, f"{name}: no position-dependent use of the event axis [{g.show(node, 2)}]", False,
                       node, f, f"slice / integer index along the event axis of {lc.show(c)}",
                       construct=f"{f}: positional index on a per-event array")
+            for phi_, cmp_ in getattr(lc, "size_decisions", []):
+                f = phi_.fn.qualname if phi_.fn is not None else (cmp_.fn.qualname if cmp_.fn is not None else "?")
+                ck.ob(RULE, f"{name}: what an event gets does not depend on how many events are evaluated with it "
+                      f"[{g.show(cmp_, 2)}]", False, cmp_, f,
+                      "a test on the number of events (other than the empty-batch guard) selects between two "
+                      "computations: a batch of that size - e.g. a single event split off a larger batch - is treated "
+                      "differently from the same events inside another batch",
+                      construct=f"{f}: decision on the batch size")
             if not entry.scalar_result and entry.per_event_inputs:
                 # batch reductions feeding a per-event output
                 bad = [(n_, n_.fn.qualname if n_.fn is not None else "?", s_) for n_, _c, s_ in lc.batch_reductions]
